@@ -61,11 +61,26 @@ fn run_one(rec: &Value) -> Value {
     let render = rec["render"].as_bool().unwrap_or(false);
     let opt = rec["opt"].as_u64().unwrap_or(1) as u8;
     let r = guarded(|| {
+        // ErgConfig::default() asks the Python interpreter for its version (a subprocess): once
+        static BASE: std::sync::OnceLock<ErgConfig> = std::sync::OnceLock::new();
+        let base = BASE
+            .get_or_init(|| {
+                // resolve the target once: otherwise every Compiler::new / dump_as_pyc asks python again
+                let mut c = ErgConfig::default();
+                if c.target_version.is_none() {
+                    c.target_version = erg_common::python_util::env_python_version();
+                }
+                if c.py_magic_num.is_none() {
+                    c.py_magic_num = Some(erg_common::python_util::env_magic_number());
+                }
+                c
+            })
+            .clone();
         let mut cfg = ErgConfig {
             input: Input::str(src.clone()),
             output: Output::Null,
             opt_level: opt,
-            ..ErgConfig::default()
+            ..base
         };
         cfg.quiet_repl = true;
         match mode.as_str() {
@@ -110,7 +125,7 @@ pub fn run(args: &[String]) -> i32 {
         let (tx, rx) = mpsc::channel();
         let r2 = rec.clone();
         let _ = std::thread::Builder::new()
-            .stack_size(256 * 1024 * 1024)
+            .stack_size(64 * 1024 * 1024)
             .spawn(move || {
                 let _ = tx.send(run_one(&r2));
             });
